@@ -65,6 +65,7 @@ def check(prog: Program, run: Run) -> None:
     run.rule("C18.R7", "services / parameters of the other layer are matched by comparing short "
              "names, never by a keyed NamedItemList lookup with a raw short name", floor=1)
     common.g6_lookup_by_short_name(prog, run, "C18.R7", SCOPE)
+    common.g12_keys_are_not_names(prog, run, "C18.R7", SCOPE)
     run.rule("C18.R9", "what the overview counts was loaded faithfully: the NOT-INHERITED lists "
              "that decide which DOPs / services / tables a layer shows are parsed from the "
              "element paths they are written to (shared with C11.R7)", floor=5)
